@@ -235,3 +235,38 @@ func Quiesce() {}
 
 // Ghost reads an engine-side ghost counter (e.g. "otter.closed"); natively 0.
 func Ghost(name string) int { return 0 }
+
+// ---- modular verification primitives (symbolic executor only; natively they abort the replay)
+
+// SymbolicMemory switches the executor to fully symbolic byte offsets/lengths for this harness (no
+// concretisation by forking): needed when buffers are unbounded (BytesUF).
+func SymbolicMemory() {}
+
+// BytesUF returns a buffer of nondeterministic length 0..maxLen whose content is an uninterpreted function
+// of the index (arbitrary bytes, no per-byte variables) — for claims up to 65535 octets.
+func BytesUF(tag string, maxLen int) []byte {
+	NotReproduced("BytesUF has no native counterpart")
+	return nil
+}
+
+// LoopEnter runs the named function (as printed by go/ssa, e.g. "(*pkg.T).m") with args until control
+// first reaches the loop header that defines the φ-variable headerPhi. Returns 0 when suspended at the
+// header, 1 if the function returned first.
+func LoopEnter(fn string, headerPhi string, args ...any) int {
+	NotReproduced("LoopEnter has no native counterpart")
+	return 1
+}
+
+// LoopNext resumes the suspended function: 0 = one iteration done (back at the header), 1 = returned.
+func LoopNext() int { return 1 }
+
+// LoopPhiInt reads a φ-variable of the suspended loop (for slices: the length).
+func LoopPhiInt(name string) int { return 0 }
+
+// LoopSetInt overwrites a φ-variable (for slices: the length) — used to put the loop into an arbitrary
+// state that satisfies the invariant.
+func LoopSetInt(name string, v int) {}
+
+// LoopRetInt / LoopRetIsNil read the results after the function returned.
+func LoopRetInt(i int) int     { return 0 }
+func LoopRetIsNil(i int) bool { return false }
